@@ -214,7 +214,7 @@ def expected(v, first_wins=False):
     return tuple(expected(x, first_wins) for x in v[1:])
 
 
-def expected_with_omitted_tail(v, lopt, fd_at, depth=0):
+def expected_with_omitted_tail(v, lopt, fd_at, depth=0, first_wins=False):
     """Reading of a delimiter after the last item as 'one more, omitted, item' — only meaningful for a
     list with nullable items where a final delimiter is not allowed (see render)."""
     if v is None or isinstance(v, str):
@@ -223,16 +223,18 @@ def expected_with_omitted_tail(v, lopt, fd_at, depth=0):
     if k in ("AL", "AM"):
         return None
     if k == "L":
-        items = [expected_with_omitted_tail(x, lopt, fd_at, depth + 1) for x in v[1:]]
+        items = [expected_with_omitted_tail(x, lopt, fd_at, depth + 1, first_wins) for x in v[1:]]
         if items and lopt.delim and fd_at(depth) and lopt.nullable and not lopt.afd_effective:
             items.append(None)
         return items
     if k == "M":
         d = {}
         for key, val in v[1:]:
-            d[key] = expected_with_omitted_tail(val, lopt, fd_at, depth + 1)
+            if first_wins and key in d:
+                continue
+            d[key] = expected_with_omitted_tail(val, lopt, fd_at, depth + 1, first_wins)
         return d
-    return tuple(expected_with_omitted_tail(x, lopt, fd_at, depth + 1) for x in v[1:])
+    return tuple(expected_with_omitted_tail(x, lopt, fd_at, depth + 1, first_wins) for x in v[1:])
 
 
 def key_order_violation(v, got):
